@@ -209,7 +209,7 @@ def run(ctx):
     )
     ctx.assumptions += [
         "real_pictures (photographs rescaled from the vc2_conformance_data package) is not run: it takes seconds per format; its pipeline stages (resize aside) are the ones the five synthetic generators share",
-        "formats are at most 64x64; sample extrema beyond +-2^30 are clamped in the record (they are out of range either way)",
+        "formats are at most 64x64 (one size 18x486); sample extrema beyond +-2^30 are clamped in the record (they are out of range either way)",
         "TLC -coverage is not used (it does not terminate on the generated tables module); per-action counts are the number of dumped states per stage",
     ]
 
